@@ -179,10 +179,28 @@ def _strategy_kal(shapes):
     def s(draw):
         Dz, Dy, T = draw(st.sampled_from(shapes))
         kappa = draw(st.sampled_from([10.0, 50.0]))
-        return {"Dz": Dz, "Dy": Dy, "T": T,
+        A = draw(gen.arr((Dz, Dz), -1.0, 1.0)) / np.sqrt(Dz)
+        C = draw(gen.arr((Dy, Dz), -1.5, 1.5))
+        # exact structure of the dynamics / read-out (a quarter of the cases): identity, permutation, singular or nilpotent
+        # dynamics in the GENERAL class, a read-out that selects single states (some states are never observed)
+        struct = draw(st.sampled_from([None] * 6 + ["A_identity", "A_permutation", "A_singular", "A_nilpotent", "C_selection"]))
+        if struct == "A_identity":
+            A = np.eye(Dz)
+        elif struct == "A_permutation":
+            A = np.eye(Dz)[list(draw(st.permutations(list(range(Dz)))))]
+        elif struct == "A_singular":
+            A = A.copy()
+            A[draw(st.integers(0, Dz - 1))] = 0.0
+        elif struct == "A_nilpotent":
+            A = np.triu(A, 1)
+        elif struct == "C_selection":
+            C = np.zeros((Dy, Dz))
+            for i_, c_ in enumerate(draw(st.lists(st.integers(0, Dz - 1), min_size=Dy, max_size=Dy))):
+                C[i_, c_] = 1.0
+        return {"Dz": Dz, "Dy": Dy, "T": T, "structure": struct,
                 "p0": draw(gen.measure_params("pdf", 1, Dz, kappa)),
-                "A": draw(gen.arr((Dz, Dz), -1.0, 1.0)) / np.sqrt(Dz), "b": draw(gen.arr((Dz,), -1, 1)),
-                "Q": draw(gen.spd(1, Dz, kappa=kappa))[0], "C": draw(gen.arr((Dy, Dz), -1.5, 1.5)),
+                "A": A, "b": draw(gen.arr((Dz,), -1, 1)),
+                "Q": draw(gen.spd(1, Dz, kappa=kappa))[0], "C": C,
                 "d": draw(gen.arr((Dy,), -1, 1)), "Rn": draw(gen.spd(1, Dy, kappa=kappa))[0],
                 "y": draw(gen.arr((T, Dy), -2.5, 2.5)),
                 "identity_state": draw(st.sampled_from([False, False, True]))}
@@ -256,6 +274,6 @@ SUBS = [
     Sub("regression", _pool_reg, _strategy_reg, _run_reg, _nontrivial_reg, _labels_reg,
         examples={"quick": 60, "thorough": 300}, shards={"quick": 8, "thorough": 14}, rule="N>=2 with a non-identity permutation"),
     Sub("kalman", _pool_kal, _strategy_kal, _run_kal, lambda c: c["T"] >= 3,
-        lambda c: [f"T={c['T']}", f"identity_state={c['identity_state']}"],
+        lambda c: [f"T={c['T']}", f"identity_state={c['identity_state']}", f"structure={c.get('structure') or 'generic'}"],
         examples={"quick": 40, "thorough": 200}, shards={"quick": 8, "thorough": 14}, rule="T>=3"),
 ]
